@@ -7,7 +7,7 @@ from ..core import Fail
 PID = "C04"
 RULE = ("shapes of every kind (triangles, non-convex polygons, holes, several components, unbounded, Empty) with "
         "int/Fraction/float coordinates, plus a curved stream (circles, quadratic and cubic boundaries) x exponent "
-        "pairs a+b <= 6 (thorough: <= 10); observables IntegrateShape.polynomial/area, float(S), "
+        "pairs a+b <= 6 (thorough: <= 10); float polygons with long nearly horizontal / vertical sides (slopes 1e-2..1e-4) and exponents up to 4; observables IntegrateShape.polynomial/area, float(S), "
         "IntegrateJordan.vertical/area; exact polygons are integrated, moved / scaled in place and integrated again; non-trivial = not an axis-parallel rectangle centred at the origin; "
         "distinct = SHA-1 of the case")
 PROOF_STATUS = ("Props/C04.v: moment = moment_spec (formal trapezoid integrals) for all polygonal shapes of all kinds, "
@@ -33,6 +33,22 @@ def cases(ctx):
             b = rng.randint(0, maxo - a)
             yield {"shape": s, "a": a, "b": b, "num": num}
         yield {"shape": s, "a": 0, "b": 0, "num": num}
+    # float polygons with long, nearly (not exactly) horizontal or vertical sides (slopes 1e-2 .. 1e-4, rises far above the
+    # tolerances) and higher exponents: where a closed form in dx/dy or dy/dx would cancel
+    import math
+    for i in range(ctx.n(8, 120)):
+        th = rng.choice([0.002, 0.0005, 0.01, 0.0001]) * rng.choice([1, -1])
+        w, h = rng.choice([4.0, 7.5, 12.0]), rng.choice([1.0, 2.5])
+        cx, cy = rng.choice([0.0, 3.25, -6.5]), rng.choice([0.0, 1.75])
+        if i % 2:
+            th += math.pi / 2
+        c_, s_ = math.cos(th), math.sin(th)
+        vs = [(cx + c_ * x - s_ * y, cy + s_ * x + c_ * y) for x, y in ((0.0, 0.0), (w, 0.0), (w, h), (0.0, h))]
+        if i % 4 >= 2:          # a "house": one shallow roof edge only
+            vs = [(cx, cy), (cx + w, cy), (cx + w, cy + h), (cx, cy + h + w * abs(math.tan(th if i % 2 == 0 else th - math.pi / 2)))]
+        j = G.verts_to_jordan([(F(x), F(y)) for x, y in vs])
+        for a, b in ((2, 0), (3, 0), (4, 0), (2, 1), (0, 4), (1, 3)):
+            yield {"shape": ("S", j), "a": a, "b": b, "num": "float", "shallow": True}
     # curved: exact area of quadratic/cubic boundaries, quadrature accuracy for moments
     for i in range(ctx.n(6, 60)):
         d = 2 + i % 2
@@ -68,6 +84,8 @@ def check(ctx, case):
     ctx.count("kind:" + U.shape_kind(s))
     ctx.count("num:" + num)
     ctx.count("order:%d" % (a + b))
+    if case.get("shallow"):
+        ctx.count("float polygon with a shallow side")
     S = I.mk_shape(s, num)
     sex = s if exact else I.shape_data(S)
     if s[0] == "E":
